@@ -47,6 +47,21 @@ CLAIMED = {
                  'amounts 0/1/7/1000 in units of 1 and 10^30, minting on and off.', 'DESIGN.md section 6 C07'),
     'C08': chain('ExportImportBegin is an action enabled at every block boundary of histories over all three custom modules; on the real app: export twice (byte equality), module '
                  'ValidateGenesis, InitChain on a fresh app, every custom query before/after, re-export equality, raw store equality.', 'DESIGN.md section 6 C08'),
+    'C10': dict(tech='TLA+ model checking (TLC) of Node.tla enumerating all crash/restart schedules + trace validation (NodeTrace.tla) of each schedule executed on the real application against a never-stopped twin',
+                text='Node.tla models the ABCI life cycle of one node with Crash enabled in every phase and Restart on the same database; TLC checks that the database always equals the '
+                     'never-stopped twin and enumerates EVERY complete schedule (<=2 crashes) for small block shapes, plus one-crash schedules around rolled-back multi-message transactions. '
+                     'Each schedule is executed on the real app (drop the app object without Commit, app.New on the same DB) with TLC-simulated Panacea block histories; NodeTrace.tla checks '
+                     'every logged event is the Node action of that name and that height, app hash, store digest and every DeliverTx result equal the twin.',
+                ref='DESIGN.md section 6 C10',
+                note='Crash = loss of the process between ABCI calls (MemDB survives); torn writes inside Commit are out of scope. One known finding in the pinned cosmos-sdk (pre-ante gasUsed) is listed in known_findings.json.'),
+    'C19': dict(tech='TLA+ model checking (TLC): Upgrades.tla on constants extracted from the code (static) + Node.tla schedules with the planned upgrade, validated by NodeTrace.tla on the real application (dynamic)',
+                text='Static: Upgrades.tla walks the ordered descriptors (compiled app.Upgrades) from the baseline declared by the first handler to the mounted store set (app.GetKVStoreKey) and checks '
+                     'each step adds only absent and deletes only present stores and that the final set equals the mounted one. Dynamic: every crash/restart schedule of Node.tla (restart before, at, '
+                     'after the upgrade height, with and without the upgrade-info.json of the halted old binary) is executed on a populated real chain with the v2.2.1 plan; the upgrade block must '
+                     'complete, done-height and module version map be recorded, the custom stores equal those of a chain that never upgraded, and every restart must load.',
+                ref='DESIGN.md section 6 C19',
+                note='Only the pinned binary exists: the old binary halting at the upgrade height is emulated (upgrade-info.json written by the harness). Earlier upgrades are covered by the static part only. '
+                     'NoStoreThen = {vesting, genutil, crisis} is a trusted constant.'),
 }
 
 PENDING_REASON = 'check not built yet in this round of work (planned in DESIGN.md section 11); no claim is made until its machinery exists'
@@ -66,7 +81,7 @@ def main():
                 thorough_cmd='bin/check %s --tier thorough' % pid,
                 evidence_file='/verif/evidence/%s.json' % pid,
                 replay_cmd_template='bin/check --replay {path}',
-                engine='panacea-tla',
+                engine=c.get('engine', 'panacea-tla'),
                 level_claimed=dict(category=c.get('cat', 'model_checking'), text=c['text'], design_ref=c['ref']),
                 level_note=c.get('note', CHAIN_NOTE),
                 technique=c['tech']))
